@@ -114,7 +114,7 @@ def analyse(ctx, replace=None, only=None):
     per_thread_state(R, P, th)
     wrapper_pointer_rules(R, P, th)
     join_list(R, th["aws_thread_join_and_free_wrapper_list"])
-    thread_fn(R, th["thread_fn"])
+    thread_fn(R, th["thread_fn"], P)
     atexit(R, th["aws_thread_current_at_exit"])
     lf = th["aws_thread_launch"]
     if not lf.calls("pthread_create"):
@@ -247,9 +247,39 @@ def wrapper_pointer_rules(R, P, th):
     R.check(True, "LAUNCH", "allocations-hold-their-objects", "source/posix/thread.c", "no constant-size allocation is smaller than the object it is used as")
 
 
+def _managed_test(f, P, c, p):
+    """True / False when the decision (c taken with polarity p) says `this thread is managed` / `is not`: a comparison of the
+    thread's detach_state - the field, or a local holding it - with AWS_THREAD_MANAGED, directly or through a boolean local
+    initialised with that comparison; None for any other condition"""
+    mv = P.enums.get("AWS_THREAD_MANAGED") if P is not None else None
+    g = RU.cmp_norm(f, c, p)
+    if g and g[2] is None and mv is not None:
+        # a boolean local: `const bool managed = (copy.detach_state == AWS_THREAD_MANAGED); if (managed)` - assigned once,
+        # at its declaration (the structure it was computed from may have its address taken, the flag itself has not)
+        v = RU.uncast(f, g[0])
+        if v is not None and v["k"] == "var" and v.get("sc") == "local":
+            inits = [vv["init"] for e in f.all_events() if e.kind == "decl" for vv in e.node["vars"] if vv["n"] == v["n"] and vv.get("init") is not None]
+            writes = [e for e in f.all_events() if e.kind == "access" and e.node["k"] == "var" and e.node["n"] == v["n"] and e.mode in ("w", "rw", "addr")]
+            i0 = RU.uncast(f, inits[0]) if len(inits) == 1 and not writes else None
+            while i0 is not None and i0["k"] == "cast":
+                i0 = RU.uncast(f, i0["a"][0])
+            if i0 is not None and i0["k"] == "bin" and i0["op"] in ("==", "!="):
+                truth = (g[1] == "!=")  # the flag is true on this edge
+                g = (i0["a"][0], i0["op"] if truth else ("!=" if i0["op"] == "==" else "=="), i0["a"][1])
+    if not g or g[2] is None or g[1] not in ("==", "!=") or mv is None:
+        return None
+    for a_, b_ in ((g[0], g[2]), (g[2], g[0])):
+        o = RU.origin(f, a_)
+        if o is not None and o["k"] == "member" and o["f"] == "detach_state" and f.is_const(RU.uncast(f, b_)) == mv:
+            return g[1] == "=="
+    return None
+
+
 def handoff(R, sh, P=None):
     f = sh["aws_thread_pending_join_add"]
-    sw = [e for e in f.calls("aws_linked_list_swap_contents")]
+    # (the pending list is taken into a local list: swap with an empty one, or aws_linked_list_move_all_back/front)
+    takes = {id(e): (e, dst) for e, dst, src in RU.list_take_alls(f) if src == "s_pending_join_managed_threads" and dst != src}
+    sw = [e for e, dst in takes.values()]
     pu = [e for e in f.calls({"aws_linked_list_push_back", "aws_linked_list_push_front"}) if argstr(f, e.node, 0) == "s_pending_join_managed_threads"]
     R.require(len(sw) == 1 and len(pu) == 1, "pending_join_add: expected one swap and one push")
     if len(sw) == 1 and len(pu) == 1:
@@ -270,7 +300,7 @@ def handoff(R, sh, P=None):
         ts = Typestate(f, "none", tr)
         R.check("BAD" not in ts.exit_states and "ok" in ts.exit_states, "HANDOFF", "pending-add:one-critical-section", where(f, pu[0]),
                 "swap-out and self-enqueue happen in the same critical section", "the lock is dropped between swapping the predecessor out and enqueueing self: two finishing threads can both find the list empty/non-empty inconsistently (a wrapper is lost or joined twice)")
-        local = [a for a in (argstr(f, sw[0].node, 0), argstr(f, sw[0].node, 1)) if a != "s_pending_join_managed_threads"]
+        local = [dst for e, dst in takes.values()]
         jn = [e for e in f.calls("aws_thread_join_and_free_wrapper_list") if argstr(f, e.node, 0) in local]
         okf, _ = RU.must_follow(f, lambda e: e is sw[0], lambda e: any(e is j for j in jn))
         R.check(bool(jn) and okf, "HANDOFF", "pending-add:predecessor-joined", where(f, sw[0]), "the swapped-out predecessor list is joined and freed on every path",
@@ -279,10 +309,11 @@ def handoff(R, sh, P=None):
         R.check(argstr(f, pu[0].node, 1, addr=False) == "node", "HANDOFF", "pending-add:pushes-own-node", where(f, pu[0]), "own node enqueued")
 
     j = sh["aws_thread_join_all_managed"]
-    sw = [e for e in j.calls("aws_linked_list_swap_contents")]
+    takes_j = {id(e): (e, dst) for e, dst, src in RU.list_take_alls(j) if src == "s_pending_join_managed_threads" and dst != src}
+    sw = [e for e, dst in takes_j.values()]
     R.require(len(sw) == 1, "join_all_managed: expected one swap of the pending list")
     if sw:
-        local = [a for a in (argstr(j, sw[0].node, 0), argstr(j, sw[0].node, 1)) if a != "s_pending_join_managed_threads"]
+        local = [dst for e, dst in takes_j.values()]
         jn = [e for e in j.calls("aws_thread_join_and_free_wrapper_list") if argstr(j, e.node, 0) in local]
 
         def tr2(e, s):
@@ -415,7 +446,7 @@ def join_list(R, f):
     R.check(okf, "JOIN-LIST", "each-join-decrements", where(f, joins[0]), "every joined thread decrements the unjoined count", "a path joins a thread without decrementing the count")
 
 
-def thread_fn(R, f):
+def thread_fn(R, f, P=None):
     dom = dominators(f)
     calls = [e for e in f.indirect_calls() if RU.indirect_via(f, e.node) == ("thread_wrapper", "func")]
     R.require(len(calls) == 1, "thread_fn: expected exactly one call through wrapper.func, found %d" % len(calls))
@@ -526,11 +557,11 @@ def thread_fn(R, f):
         R.check(not later, "THREAD-FN", "handover-last", where(f, h), "nothing runs on the thread after it hands itself over", "calls after the hand-over: %s" % [x.node.get("callee") for x in later][:3])
         cb_after = [e for e in f.indirect_calls() if e in RU.reach_from(f, h)]
         gs = [f.show(c) + ("" if p else "==false") for c, p, b in RU.guards(f, h)]
-        R.check(any("is_managed_thread" in g and "false" not in g for g in gs), "THREAD-FN", "handover-only-managed", where(f, h), "hand-over only for managed threads (%s)" % gs)
+        R.check(any(_managed_test(f, P, c, p) is True for c, p, b in RU.guards(f, h)), "THREAD-FN", "handover-only-managed", where(f, h), "hand-over only for managed threads (%s)" % gs)
     # non-managed destroy / managed keep
     for dsy in f.calls("s_thread_wrapper_destroy"):
         gs = [(f.show(c), p) for c, p, b in RU.guards(f, dsy)]
-        R.check(any(("is_managed_thread" in g) for g, p in gs), "THREAD-FN", "destroy-only-unmanaged", where(f, dsy), "the wrapper is destroyed here only for non-managed threads (%s)" % gs,
+        R.check(any(_managed_test(f, P, c, p) is not None for c, p, b in RU.guards(f, dsy)), "THREAD-FN", "destroy-only-unmanaged", where(f, dsy), "the wrapper is destroyed here only for non-managed threads (%s)" % gs,
                 "managed wrappers must survive until the lazy join; destroy is not guarded by the managed test")
 
 
